@@ -44,7 +44,7 @@ TECHNIQUE = "runtime purity monitor (argument digests before/after every tapped 
 FLOORS = {
     "quick": {"eval:purity": 25000, "eval:repeat": 150, "eval:readonly": 150, "eval:history": 38, "eval:clone": 28, "eval:unfitted": 19,
               "eval:rejection": 420, "eval:aliasing": 25, "eval:stale_state": 130, "distinct_nontrivial": 5000},
-    "thorough": {"eval:purity": 600000, "eval:repeat": 6000, "eval:readonly": 6000, "eval:history": 1100, "eval:clone": 750, "eval:rejection": 10000,
+    "thorough": {"eval:purity": 600000, "eval:repeat": 3800, "eval:readonly": 3800, "eval:history": 1100, "eval:clone": 750, "eval:rejection": 10000,
                  "eval:aliasing": 750, "distinct_nontrivial": 100000},
 }
 JOBS = {"quick": 1, "thorough": 16}
@@ -54,7 +54,7 @@ CASE_TIMEOUT_S = 1200
 def plan(tier):
     if tier == "quick":
         return collections.OrderedDict(specs=4, history=8, clone=6, unfitted=2, rejection=5, aliasing=8, borrowed=12)
-    return collections.OrderedDict(specs=160, history=240, clone=160, unfitted=20, rejection=120, aliasing=240, borrowed=320, ambient=17)
+    return collections.OrderedDict(specs=100, history=240, clone=160, unfitted=20, rejection=120, aliasing=240, borrowed=200, ambient=17)
 
 
 # ----------------------------------------------------------------------
